@@ -258,7 +258,7 @@ def run_tlapm(module, timeout=900):
         rm(d)
 
 
-def run_apalache(module, init, inv, length, timeout=600):
+def run_apalache(module, init, inv, length, timeout=600, cinit=None):
     """apalache-mc check --init=<init> --inv=<inv> --length=<length> on /verif/spec/<module>.tla in a scratch copy.
     Returns the wall time; raises Broken unless Apalache reports no error (a design-level obligation, never a verdict on the code)."""
     d = scratch("apalache_" + module)
@@ -266,7 +266,7 @@ def run_apalache(module, init, inv, length, timeout=600):
         shutil.copy(os.path.join(SPEC, module + ".tla"), d)
         t0 = time.time()
         try:
-            p = subprocess.run(["apalache-mc", "check", "--init=" + init, "--inv=" + inv, "--length=%d" % length, "--out-dir=" + os.path.join(d, "out"),
+            p = subprocess.run(["apalache-mc", "check"] + (["--cinit=" + cinit] if cinit else []) + ["--init=" + init, "--inv=" + inv, "--length=%d" % length, "--out-dir=" + os.path.join(d, "out"),
                                 module + ".tla"], cwd=d, stdout=subprocess.PIPE, stderr=subprocess.STDOUT, text=True, timeout=timeout)
         except subprocess.TimeoutExpired:
             raise Broken("apalache-mc timed out on %s (%s => %s)" % (module, init, inv))
